@@ -241,12 +241,9 @@ func identity(n int) []int {
 	return out
 }
 
-// TestC19EndToEnd: set through a cluster handler built with one node order,
-// get through another handler built with a different order; the node labels
-// (127.0.0.1:port) are chosen so that two of them share a ring point and the
-// keys include some that hash into the shared point's arc.
-func TestC19EndToEnd(t *testing.T) {
-	rec := evid.For("C19")
+// collidingLoopbackFakes starts three fakes on loopback TCP ports, two of whose
+// "127.0.0.1:port" labels share a ring point.
+func collidingLoopbackFakes(t *testing.T) (fakes []*fakemc.Server, addrs []string, point uint32) {
 	// find two loopback ports whose labels collide on the ring
 	seen := map[uint32]int{}
 	type pair struct {
@@ -263,9 +260,6 @@ func TestC19EndToEnd(t *testing.T) {
 			}
 		}
 	}
-	var fakes []*fakemc.Server
-	var addrs []string
-	var point uint32
 	for _, pr := range pairs {
 		f1, f2 := fakemc.New(), fakemc.New()
 		a1, e1 := f1.ListenTCP(fmt.Sprintf("127.0.0.1:%d", pr.a))
@@ -284,6 +278,16 @@ func TestC19EndToEnd(t *testing.T) {
 		t.Fatal(err)
 	}
 	fakes, addrs = append(fakes, f3), append(addrs, a3)
+	return fakes, addrs, point
+}
+
+// TestC19EndToEnd: set through a cluster handler built with one node order,
+// get through another handler built with a different order; the node labels
+// (127.0.0.1:port) are chosen so that two of them share a ring point and the
+// keys include some that hash into the shared point's arc.
+func TestC19EndToEnd(t *testing.T) {
+	rec := evid.For("C19")
+	fakes, addrs, point := collidingLoopbackFakes(t)
 	// keys: some that hash into the arc that ends at the shared point
 	ring := []uint32{}
 	for _, a := range addrs {
@@ -343,5 +347,44 @@ func TestC19EndToEnd(t *testing.T) {
 		}
 		hw.Close()
 	}
-	rec.Sample(true, map[string]interface{}{"end_to_end_nodes": addrs, "shared_ring_point": point, "keys": len(keys), "keys_in_shared_arc": inArc, "orders": len(orders) * len(orders)})
+	// A connection set up while one node cannot be reached: either there is no
+	// handler (the client connection is refused, which is what the code does), or
+	// the handler routes as every other connection does -- a key that was stored
+	// through a complete handler must not be looked for on some other node.
+	hw, err := cluster.NewHandler(addrs, "w")
+	if err != nil {
+		t.Fatal(err)
+	}
+	for _, f := range fakes {
+		f.Reset()
+	}
+	for _, k := range keys {
+		if err := hw.Set(common.SetRequest{Key: []byte(k), Data: []byte("v-" + k), Flags: 7}); err != nil {
+			t.Fatalf("harness: set: %v", err)
+		}
+	}
+	partial := 0
+	for down := range fakes {
+		fakes[down].StopListening()
+		hp, err := cluster.NewHandler(addrs, "p")
+		if _, lerr := fakes[down].ListenTCP(addrs[down]); lerr != nil {
+			t.Fatalf("harness: cannot listen on %s again: %v", addrs[down], lerr)
+		}
+		if err != nil {
+			rec.Case(true, fmt.Sprintf("e2e-down|%d|refused", down), "end-to-end-node-unreachable-at-connect:no-handler")
+			continue
+		}
+		partial++
+		for _, k := range keys {
+			res, _ := execHandler(hp, wire.Cmd{Kind: wire.Get, Keys: []string{k}}, 0)
+			if res.Err == nil && (res.Hits[0] == nil || string(res.Hits[0].Value) != "v-"+k) {
+				p := rec.Violation("TestC19EndToEnd", map[string]interface{}{"nodes": addrs, "unreachable_at_connect": addrs[down], "key": k})
+				t.Fatalf("C19 end to end: a handler built while node %s refused connections looks for key %q (stored through a complete handler) on a different node: %+v; replay %s", addrs[down], k, res, p)
+			}
+		}
+		hp.Close()
+		rec.Case(true, fmt.Sprintf("e2e-down|%d|handler", down), "end-to-end-node-unreachable-at-connect:handler-routes-alike")
+	}
+	hw.Close()
+	rec.Sample(true, map[string]interface{}{"end_to_end_nodes": addrs, "handlers_built_with_a_node_down": partial, "shared_ring_point": point, "keys": len(keys), "keys_in_shared_arc": inArc, "orders": len(orders) * len(orders)})
 }
